@@ -6,6 +6,54 @@ open WireModel
 let err e = ["e" ^ string_of_int (int_of_z (werr_code e))]
 let consumed ins rest = string_of_int (Stdlib.List.length ins - Stdlib.List.length rest)
 
+(* ---- Tier T: the functions translated from wire.go by srcmodel (Gen/WireGo.v).
+   Integers are Z, byte strings are Z lists; [n] results print like the harness
+   prints Go's (negative = error code). ---- *)
+let zs_of_hex s = Stdlib.List.map (fun b -> z_of_int (int_of_byte b)) (bytes_of_hex s)
+let hex_of_zs (zs : BinNums.coq_Z list) : string =
+  let b = Buffer.create 64 in
+  Buffer.add_char b 'x';
+  Stdlib.List.iter (fun z -> let i = int_of_z z in
+                     if i < 0 || i > 255 then Buffer.add_string b "??" else Buffer.add_string b (Printf.sprintf "%02x" i)) zs;
+  Buffer.contents b
+let zlen l = z_of_int (Stdlib.List.length l)
+let lenres n ok = let i = int_of_z n in if i < 0 then ["e" ^ string_of_int i] else ok (string_of_int i)
+let nilz : BinNums.coq_Z list = []
+
+let go_handle op args =
+  let open WireGo in
+  match op, args with
+  | "go_varint", [v] -> let v = z_of_hex v in [hex_of_zs (go_AppendVarint nilz v); hex_of_z (go_SizeVarint v)]
+  | "go_cvarint", [b] ->
+      (match go_ConsumeVarint (zs_of_hex b) with
+       | GoInt.Val (v, n) -> lenres n (fun n -> ["ok"; hex_of_z v; n]) | GoInt.Panic -> ["panic"])
+  | "go_fixed32", [v] -> [hex_of_zs (go_AppendFixed32 nilz (z_of_hex v))]
+  | "go_fixed64", [v] -> [hex_of_zs (go_AppendFixed64 nilz (z_of_hex v))]
+  | "go_cfixed32", [b] ->
+      (match go_ConsumeFixed32 (zs_of_hex b) with
+       | GoInt.Val (v, n) -> lenres n (fun n -> ["ok"; hex_of_z v; n]) | GoInt.Panic -> ["panic"])
+  | "go_cfixed64", [b] ->
+      (match go_ConsumeFixed64 (zs_of_hex b) with
+       | GoInt.Val (v, n) -> lenres n (fun n -> ["ok"; hex_of_z v; n]) | GoInt.Panic -> ["panic"])
+  | "go_zz", [x] -> [hex_of_z (go_EncodeZigZag (z_of_hex x))]
+  | "go_unzz", [n] -> [hex_of_z (go_DecodeZigZag (z_of_hex n))]
+  | "go_bool", [b] -> [hex_of_z (go_EncodeBool (bool_of_tok b))]
+  | "go_unbool", [n] -> [tok_of_bool (go_DecodeBool (z_of_hex n))]
+  | "go_etag", [num; typ] -> [hex_of_z (go_EncodeTag (z_of_hex num) (z_of_hex typ))]
+  | "go_dtag", [x] -> let (num, typ) = go_DecodeTag (z_of_hex x) in [hex_of_z num; hex_of_z typ]
+  | "go_tag", [num; typ] -> let num = z_of_hex num in
+      [hex_of_zs (go_AppendTag nilz num (z_of_hex typ)); hex_of_z (go_SizeTag num)]
+  | "go_ctag", [b] ->
+      (match go_ConsumeTag (zs_of_hex b) with
+       | GoInt.Val ((num, typ), n) -> lenres n (fun n -> ["ok"; hex_of_z num; hex_of_z typ; n]) | GoInt.Panic -> ["panic"])
+  | "go_bytes", [v] -> let v = zs_of_hex v in [hex_of_zs (go_AppendBytes nilz v); hex_of_z (go_SizeBytes (zlen v))]
+  | "go_cbytes", [b] ->
+      (match go_ConsumeBytes (zs_of_hex b) with
+       | GoInt.Val (v, n) -> lenres n (fun n -> ["ok"; hex_of_zs v; n]) | GoInt.Panic -> ["panic"])
+  | "go_agroup", [num; v] -> let num = z_of_hex num and v = zs_of_hex v in
+      [hex_of_zs (go_AppendGroup nilz num v); hex_of_z (go_SizeGroup num (zlen v))]
+  | _ -> failwith ("wire: unknown op " ^ op)
+
 let handle op args =
   match op, args with
   | "varint", [v] -> let v = n_of_hex v in [hex_of_bytes (enc_varint v); hex_of_n (size_varint v)]
@@ -45,6 +93,7 @@ let handle op args =
        | Err e -> err e)
   | "agroup", [num; v] -> let num = n_of_hex num and v = bytes_of_hex v in
       [hex_of_bytes (append_group num v); hex_of_n (size_group num (n_of_int (Stdlib.List.length v)))]
-  | _ -> failwith ("wire: unknown op " ^ op)
+  | "perr", [n] -> [string_of_int (int_of_n (perr_class (parse_error (z_of_hex n))))]
+  | _ -> go_handle op args
 
 let () = register "wire" handle
